@@ -1,5 +1,5 @@
 (** C13 — soundness of Merkle proofs up to an explicit hash collision. *)
-From Coq Require Import List ZArith NArith Bool Lia Arith.
+From Coq Require Import List ZArith NArith Bool Lia Arith ZifyBool.
 From Kardia Require Import Base.Int64 Base.ListX C13.Model C13.ProofsMerkle.
 Import ListNotations.
 
